@@ -25,6 +25,7 @@ UNITS = {
     'stream': {'rlimit': 50, 'timeout': 240},
     'reader': {'rlimit': 50, 'timeout': 120},
     'decode': {'rlimit': 100, 'timeout': 240},
+    'layout': {'rlimit': 200, 'timeout': 300},
     'registry': {'rlimit': 50, 'timeout': 120},
     'ops': {'rlimit': 50, 'timeout': 240},
     'heap': {'rlimit': 50, 'timeout': 120},
@@ -33,6 +34,40 @@ UNITS = {
 }
 
 PROPS = {
+    'C01': {
+        'units': ['builder', 'encode', 'layout', 'decode', 'registry', 'bytesio', 'cw', 'stream', 'open'],
+        'kani': [],
+        'own': {'stream': r'StreamWithState::(new|seek_min|next_with)|Stream::|impl&%\\d+::(next|into_stream)|Output::',
+                'open': r'Fst::(new|len|is_empty|as_ref)|FstRef::(len|is_empty)', 'cw': r'.', 'registry': r'.'},
+        'level_text': 'Proof, link by link: (1) every accepted insert/add extends the denotation of the builder (unfinished stack over the '
+                      'emitted graph) by exactly (key, value) - Builder::{insert, add, insert_output, compile_from, compile} and all '
+                      'UnfinishedNodes methods on their real bodies; (2) into_inner: the listing of graph(body) at the root address equals '
+                      'that denotation, the footer carries len, root and the masked CRC; (3) graph(body) is defined from the bytes by the '
+                      'spec-level decoder: compile_to appends exactly node_bytes (unit encode), node_bytes decodes to the node and older '
+                      'addresses are untouched (unit layout: L3a/L3b, graph push), and the real decoder implements that spec decoder (unit '
+                      'decode: dec_view == dec); (4) streaming a well-formed graph yields its listing in order (unit stream), len() is the '
+                      'footer field (unit open). All fan-outs 0..256, all pack widths, values to u64::MAX, every cache geometry.',
+        'level_note': 'Assumed: sums of outputs along a path fit in u64 (argued); the stream unit states its contracts over an abstract '
+                      'graph function whose identification with graph(bytes) is argued (the decode unit proves the accessor contracts over '
+                      'dec_view == dec); Registry::entry in the set-of-residents phrasing; std contracts (write_all, Vec, slice order). '
+                      'from_iter / extend_* front ends not decided.',
+        'explanation': '',
+        'assumptions': ['iterator front ends (from_iter, extend_iter, extend_stream) not decided by a verifier'],
+    },
+    'C09': {
+        'units': ['encode', 'layout', 'decode', 'builder', 'bytesio'],
+        'kani': [],
+        'own': {'builder': r'Builder::(compile|compile_from|new_type|new|into_inner|insert_output)$'},
+        'level_text': 'Proof: encoder and decoder are verified against one forward-layout specification written from the format description '
+                      '(header 3 + type; the three node forms; state byte; sizes nibbles; reverse transition order; index iff more than 32 '
+                      'transitions; 256 escape; deltas relative to the node start with 0 = empty-final sentinel; footer len, root, '
+                      'checksum), so a change made consistently to writer and reader still fails. Builder::compile writes a node only at '
+                      'count(), never writes the empty-final node or a resident node, every transition target is an earlier emitted address '
+                      'or 0; nodes tile the body because graph(body) is defined by parsing it backwards node by node.',
+        'level_note': 'The common-input tables and the 256-entry index loop are assumed contracts (Kani K-tables / K-scan).',
+        'explanation': '',
+        'assumptions': [],
+    },
     'C02': {
         'units': ['reader', 'decode'],
         'kani': [],
